@@ -122,6 +122,24 @@ pub fn run(case: &str) -> String {
             let bits: String = texts.iter().map(|t| b01(verdict(e.as_ref(), t))).collect();
             format!("{};{}", canon_term(&format!("{}", e)), bits)
         }
+        "w" => {
+            // the term as it is TYPED inside a query: blanks escaped, through the and/or splitter on top of the term factory
+            let inner = ExactOrFuzzyEngineFactory::builder()
+                .exact_mode(exact)
+                .fuzzy_algorithm(algo)
+                .build();
+            let f = AndOrEngineFactory::new(inner);
+            let typed = term.replace(' ', "\\ ");
+            let e = f.create_engine_with_case(&typed, cm);
+            let bits: String = texts.iter().map(|t| b01(verdict(e.as_ref(), t))).collect();
+            let d = format!("{}", e);
+            let one = d
+                .strip_prefix("(Or: (And: ")
+                .and_then(|r| r.strip_suffix("))"))
+                .map(|r| r.to_string())
+                .unwrap_or(d);
+            format!("{};{}", canon_term(&one), bits)
+        }
         "r" => {
             let f = RegexEngineFactory::builder().build();
             let e = f.create_engine_with_case(&term, cm);
